@@ -13,7 +13,7 @@ import json
 import os
 import shutil
 
-from kernel import core, bfg
+from kernel import core, bfg, proj
 
 KEYS = ['A', 'B', 'C']
 VALS = ['x', 'z']
@@ -345,8 +345,9 @@ def _cfg_shard(arg):
         else:
             if mode == 'lazy-after-edit':
                 # a newer build.bfg (same content) forces the lazy path to regenerate for real
-                tick[0] += 10
-                os.utime(bfgfile, (tick[0], tick[0]))
+                proj.tick()
+                os.utime(bfgfile)
+                proj.tick()
             r = bfg.run_inproc(['regenerate', '--lazy', bld], amb, cwd)
         now = primary_files(bld, cfg['backend'])
         fnow = env_fields(Environment.load(bld)) if r.rc == 0 else None
